@@ -167,8 +167,34 @@ def failed_constructor_cases(rng, tier):
                     yield Case("fc-%d-%d-%d-%d" % (rep, ty, enc, k), L, compare=False, meta={"dist": {"kind": "failed-constructor", "enc": enc}})
 
 
+def absent_element_cases(rng, tier):
+    """an element pointer that is null: whatever the constructor answers, the object it hands out (if any) must be
+    copyable, comparable, writable and released completely by one destroy (sanitizer + allocator ledger decide)"""
+    idx = 0
+    for ty in (STRING, BINARY):
+        for op in (("obj", "objs") if ty == STRING else ("obj",)):
+            for n, pos in ((1, 0), (2, 0), (3, 1), (3, 2), (4, 1)):
+                elems = rand_array(rng, ty, n, "random")
+                toks = [hx(e) for e in elems]; toks[pos] = "~"
+                L = ["%s 1 %d %d %s" % (op, ty, n, " ".join(toks)), "ocopy 2 1", "oeq 1 2", "va 3 -2 1", "vaget 4 3", "out 1", "wobja 1 1",
+                     "odel 4", "vadel 3", "odel 2", "odel 1"]
+
+                def oracle(c):
+                    v = (c.val(1) or "").split(" ")
+                    if v[0] == "0":
+                        # accepted: then everything downstream has to cope (crashes and leaks are reported by the engine)
+                        if c.val(2) != "0": return ["an object with an absent element was created but cannot be copied (status %s)" % c.val(2)]
+                        if c.val(3) != "1": return ["an object with an absent element differs from its copy"]
+                    elif len(v) > 1 and v[1] != "null":
+                        return ["the constructor refused an absent element but left something in its output argument"]
+                    return []
+                idx += 1
+                yield Case("ae%d" % idx, L, oracle=oracle, compare=False, meta={"dist": {"kind": "absent-element", "type": ty}})
+
+
 def cases(rng, tier):
     yield from failed_constructor_cases(rng, tier)
+    yield from absent_element_cases(rng, tier)
     n = {"quick": 300, "thorough": 6000, "search": 200}[tier]
     for i in range(n // 3):
         yield ledger_case("l%d" % i, rng, False)
